@@ -81,7 +81,7 @@ structure ClassSchema where
   dispatch : String                  -- key holding the class name (`asset_type`), "" if the branch names the class
   resolvable : Bool                  -- class name reachable through `globals()` of serialization.py
   unparsed : List String             -- statements the translator could not interpret (must be empty)
-  deriving Repr, Inhabited
+  deriving DecidableEq, Repr, Inhabited
 
 /-! ## What is stored, what the constructor sees -/
 
@@ -152,9 +152,10 @@ def chkAccepted (c : ClassSchema) : Bool :=
 
 /-- required parameters ⊆ keys that are always stored (and reach the constructor) -/
 def chkRequired (c : ClassSchema) : Bool :=
-  c.params.all fun p => !p.required ||
+  (c.params.all fun p => !p.required ||
     ((storedOf c false).any (fun s => s.key == p.name && !s.cond) && !(c.deserPops.contains p.name) &&
-      (!c.positional || c.ctorKeys.contains p.name))
+      (!c.positional || c.ctorKeys.contains p.name))) &&
+  (!c.positional || c.ctorKeys.all (fun k => c.params.any (fun p => p.name == k && p.required)))
 
 /-- every stored key that is a parameter (or setter key) is re-assigned, unchanged, to the attribute it was
 read from: `same` for `__dict__` keys, the matching rename for explicit keys -/
@@ -217,13 +218,14 @@ def RoundTripOK (c : ClassSchema) : Bool :=
 def report (S : List ClassSchema) : List (String × List String) :=
   (S.map fun c => (c.name, ((checks c).filter (fun x => !x.2)).map (·.1))).filter (fun x => !x.2.isEmpty)
 
-/-- consistency of the whole table: class names are distinct and all classes of one tag share the way the
-class is recovered (first class of a tag decides: literal class or dispatch key) -/
-def tableOK (S : List ClassSchema) : Bool :=
-  nodupB (S.map (·.name)) &&
-  S.all fun c => match S.find? (fun d => d.tag == c.tag) with
-    | some d => d.dispatch == c.dispatch && (c.dispatch != "" || d.name == c.name)
-    | none => false
+/-- consistency of the table around one class: the first class carrying its tag decides how the class is
+recovered (literal class of the branch, or the dispatch key) and agrees with this class -/
+def classOK (S : List ClassSchema) (c : ClassSchema) : Bool :=
+  match S.find? (fun d => d.tag == c.tag) with
+  | some d => d.dispatch == c.dispatch && (c.dispatch != "" || d.name == c.name)
+  | none => false
+
+def tableOK (S : List ClassSchema) : Bool := nodupB (S.map (·.name)) && S.all (classOK S)
 
 /-! ## Abstract values -/
 
@@ -331,14 +333,18 @@ end
 
 /-! ### decoding (`json.loads(object_hook = json_deserialize_objects)`) -/
 
-/-- the class a tagged dictionary is rebuilt as -/
-def findClass (S : List ClassSchema) (tag : String) (kvs : List (String × PyVal)) : Option ClassSchema :=
+/-- the class a tagged dictionary is rebuilt as: the class the branch of the tag names, or the class whose
+name the dispatch key holds (`globals()[asset_type]`) -/
+def classFor (S : List ClassSchema) (tag : String) (kvs : List (String × PyVal)) : Option ClassSchema :=
   match S.find? (fun c => c.tag == tag) with
   | Option.none => Option.none
   | some c0 =>
-      if c0.dispatch == "" then some c0
+      if c0.dispatch == "" then findByName S c0.name
       else match lookup c0.dispatch kvs with
-        | some (.str n) => S.find? (fun c => c.name == n && c.tag == tag && c.resolvable)
+        | some (.str n) =>
+            match findByName S n with
+            | some c => if c.tag == tag && c.resolvable then some c else Option.none
+            | Option.none => Option.none
         | _ => Option.none
 
 /-- value the (abstract) constructor gives attribute `a` for keyword arguments `kw` -/
@@ -411,7 +417,7 @@ def hook (S : List ClassSchema) (tc : TimeCodec) (kvs : List (String × PyVal)) 
         | some (.list xs), some .none => (mapM' asDateTime xs).map (PyVal.dtindex Option.none)
         | _, _ => Option.none
       else
-        match findClass S tag kvs with
+        match classFor S tag kvs with
         | some c => construct c kvs
         | Option.none => Option.none    -- NotImplementedError / KeyError
   | some _ => Option.none
@@ -466,7 +472,8 @@ mutual
     | .ndarray xs => ValidList S xs
     | .dtindex _ ts => ∀ t ∈ ts, WholeSecond t
     | .obj cls attrs =>
-        (∃ c, findByName S cls = some c ∧ c.name = cls ∧ RoundTripOK c = true ∧ c.tag ∉ reservedTags ∧
+        (∃ c, findByName S cls = some c ∧ c.name = cls ∧ RoundTripOK c = true ∧ classOK S c = true ∧
+              c.tag ∉ reservedTags ∧
               Reachable c attrs) ∧ ValidFields S attrs
   def ValidList (S : List ClassSchema) : List PyVal → Prop
     | [] => True
